@@ -264,6 +264,18 @@ def run(ctx: Ctx, env):
                 ok = sep.strip() == "-" and sep.startswith("-")
             else:
                 ok = rx.accepts_text(rule.dfa, alpha, sep) is True
+            if ok and fix == "prefix":
+                # token fusion: operator text followed by the first character of an operand must still lex as the operator
+                for first in ("1", "a", "'", "("):
+                    fused = _first_token(langs, g, sep + first)
+                    if fused is not None and (fused[0] != tok or fused[1] > len(sep)):
+                        ok = False
+                        ctx.fail("R5.prefix-operator-fuses", f"{pd}|{first}", f"the printer writes {sep!r} directly before the operand; followed by "
+                                 f"{first!r} the lexer reads `{(sep + first)[:fused[1]]}` as {fused[0]} instead of {tok} + operand", t.where,
+                                 "- 1 eq x  (unary minus applied to a literal)" if pd == "USub" else "not a")
+                        break
+                if not ok:
+                    continue
             ctx.check(ok, "R5.operator-separator", f"{pd}", f"the printer writes {sep!r} for {pd}; the lexer's {tok} rule does not accept that spelling "
                       f"(template `{t.text()}`)", t.where, witness.example(pk, pd))
     ctx.floor("operator separators", n_sep, 30)
@@ -279,6 +291,25 @@ def run(ctx: Ctx, env):
             ctx.check("(" in txt and txt.endswith(")") and "joined by ', '" in txt or "joined by ','" in txt, "R5.delimiters", "Call",
                       f"call printed as `{txt}`", t.where)
     ctx.trust("the parser's decision relation is the LALR table of Core E (C05 checks it against the specification)")
+
+
+def _first_token(langs, g, text: str):
+    """(rule name, match length) of the first token the ordered rules produce at the start of `text`
+    (first rule in order that matches a prefix; its longest match). None if nothing matches."""
+    for r in g.rules:
+        d = langs.rules[r.name].dfa
+        s = d.start
+        best = 0
+        for i, ch in enumerate(text):
+            c = langs.alpha.class_of.get(ch)
+            if c is None:
+                break
+            s = d.trans[s][c]
+            if s in d.accept:
+                best = i + 1
+        if best:
+            return r.name, best
+    return None
 
 
 def _lexer_transforms(kf, rule_name: str) -> Tuple[Tuple, bool]:
